@@ -50,7 +50,9 @@ def run_tlc(workdir, module_dir, module, cfg_text, env=None, workers=1, timeout=
     with open(cfg, "w") as f:
         f.write(cfg_text)
     out = os.path.join(workdir, module + ".out")
-    e = {"JAVA_TOOL_OPTIONS": java_opts + " -DTLA-Library=" + os.path.join(SPEC, "mon") + ":" + SPEC}
+    jtmp = os.path.join(workdir, "jtmp")                                   # TLC's java.io.tmpdir scratch (otherwise one /tmp/tlc-* per run)
+    os.makedirs(jtmp, exist_ok=True)
+    e = {"JAVA_TOOL_OPTIONS": java_opts + " -Djava.io.tmpdir=" + jtmp + " -DTLA-Library=" + os.path.join(SPEC, "mon") + ":" + SPEC}
     if env:
         e.update(env)
     cmd = ["timeout", str(timeout), "tlc", "-workers", str(workers), "-noGenerateSpecTE", "-metadir", os.path.join(workdir, "meta"), "-cleanup",
@@ -60,6 +62,7 @@ def run_tlc(workdir, module_dir, module, cfg_text, env=None, workers=1, timeout=
     except subprocess.TimeoutExpired:
         raise ToolError("TLC did not stop on " + module)
     text = open(out, errors="replace").read()
+    shutil.rmtree(jtmp, ignore_errors=True)
     shutil.rmtree(os.path.join(workdir, "meta"), ignore_errors=True)      # TLC's state files (gigabytes after a run stopped by its budget)
     res = {"rc": rc, "wall_s": round(dt, 1), "out": out, "text": text}
     m = re.search(r"(\d+) states generated, (\d+) distinct states found, (\d+) states left on queue", text)
